@@ -198,6 +198,28 @@ class FakeConn:
             self.closed = True
             self.world.events.append(("C", self.uid))
 
+    def shutdown(self, how):
+        # as the kernel does it: EBADF on a closed descriptor, ENOTCONN once the peer has reset the connection (the states
+        # in which the fake makes reads / writes fail), success otherwise; no event: nothing is written
+        if self.closed:
+            raise OSError(errno.EBADF, "Bad file descriptor")
+        if self.read_error is not None or self.fail_write is not None:
+            raise OSError(errno.ENOTCONN, "Transport endpoint is not connected")
+
+    def getpeername(self):
+        if self.closed:
+            raise OSError(errno.EBADF, "Bad file descriptor")
+        return ("127.0.0.1", 40000 + self.uid)
+
+    def getsockname(self):
+        return ("127.0.0.1", 7111)
+
+    def settimeout(self, t):
+        pass
+
+    def setblocking(self, flag):
+        pass
+
     def __hash__(self):
         return id(self)
 
